@@ -94,6 +94,12 @@ def run(ck):
         ck.count("rules_with_some_switch_set_in_theorem_scope", 1 if scope else 0)
         for sw in scope:
             ck.count("in_theorem_scope:sw%d" % sw)
+        for sw in c["sw"]:
+            if sw not in scope:
+                # why: a listed class applies to this rule and switch set (the verdict can really change), or the
+                # scope predicate is merely conservative
+                ks = sorted(k for k in classes.get(sw, []) if k in (13, 16, 17))
+                ck.count("outside_scope:sw%d:%s" % (sw, "class_" + "_".join("D%d" % k for k in ks) if ks else "conservative"))
         line_a = common.strip_extra(impl[c["id"]])
         line_b = common.strip_known(model[c["id"]])
         agrees = (line_a == line_b) or (common.lines_agree(line_a, line_b) is True)
